@@ -143,9 +143,24 @@ func newBundle(locale string, file po.File) (*bundle, error) {
 		if id == 0 {
 			return nil, fmt.Errorf("no id found in message: %#v", msg)
 		}
+		if untranslated(msg.Str) {
+			// an empty msgstr is how PO files mark a message that has not been
+			// translated (yet): leave it out, so that the source text is used.
+			continue
+		}
 		msgs[id] = newMessage(id, varName, msg.Str)
 	}
 	return &bundle{msgs, locale, pluralize}, nil
+}
+
+// untranslated reports whether every msgstr of an entry is empty.
+func untranslated(msgstrs []string) bool {
+	for _, s := range msgstrs {
+		if s != "" {
+			return false
+		}
+	}
+	return true
 }
 
 func (b *bundle) Message(id uint64) *soymsg.Message {
